@@ -13,6 +13,7 @@ import (
 	"syscall"
 
 	log "github.com/golang/glog"
+	"github.com/westerndigitalcorporation/blb/pkg/verifhook"
 )
 
 const (
@@ -213,6 +214,8 @@ func (f *ChecksumFile) tryWrite(b *checksumBlock, blockNo int) (int, error) {
 	binary.LittleEndian.PutUint32(b.storage[b.length:writeLen], b.cksum)
 
 	// And do the write.
+	verifhook.At("disk.write.before", f.path, blockNo, writeLen)
+	defer verifhook.At("disk.write.after", f.path, blockNo, writeLen)
 	return f.file.WriteAt(b.storage[0:writeLen], int64(headerLength+blockLength*blockNo))
 }
 
@@ -248,6 +251,7 @@ func (f *ChecksumFile) writeBlock(b *checksumBlock, blockNo int) (int, error) {
 	// fragment, and tell the user we're out of space.
 	if n <= blockChecksumLength {
 		// If we can't remove the checksum fragment, the block is screwed up.
+		verifhook.At("disk.truncate.before", f.path, blockNo)
 		if truncErr := f.file.Truncate(int64(headerLength + blockLength*blockNo)); nil != truncErr {
 			log.Errorf("%s: truncate error after short write less than checksum length writing block %d: %+v", f.file, blockNo, truncErr)
 			return 0, ErrCorruptData
